@@ -25,7 +25,7 @@ Kinds == {"reg", "lnk_reg", "lnk_dangling", "fifo", "dir", "missing"}
 DstKinds == {"none", "reg", "dir"}
 
 (* args.c: opt_stdout or --test => opt_keep_original                         *)
-KeepEff(c) == c.keep \/ c.stdout
+KeepEff(c) == c.keep \/ c.stdout \/ c.kind = "stdin"
 (* io_open_src_real(): follow_symlinks / reg_files_only                      *)
 FollowSymlinks(c) == c.stdout \/ c.force \/ KeepEff(c)
 RegFilesOnly(c) == ~c.stdout
@@ -54,8 +54,15 @@ Warn(why) == msgs' = Append(msgs, [sev |-> "warn", why |-> why])
 Err(why)  == msgs' = Append(msgs, [sev |-> "error", why |-> why])
 
 (* open(src_name, O_RDONLY | O_NOCTTY | O_NONBLOCK [| O_NOFOLLOW])           *)
+(* a source of kind "stdin" is the name "-" given on the command line (main.c): nothing is opened, args.c /
+   io_open_dest_real() make the output go to stdout, and a file that happens to be called "-" is not touched *)
+OpenStdin ==
+    /\ pc = "open_src" /\ cfg.kind = "stdin"
+    /\ UNCHANGED <<cfg, srcThere, dst, sys, msgs>>
+    /\ pc' = IF cfg.opmode = "decompress" THEN "init" ELSE "name_dst"
+
 OpenSrc ==
-    /\ pc = "open_src"
+    /\ pc = "open_src" /\ cfg.kind # "stdin"
     /\ UNCHANGED <<cfg, srcThere, dst>>
     /\ LET o == [call |-> "open_src", nofollow |-> ~FollowSymlinks(cfg)] IN
        \* open() fails with ELOOP on a symlink: lstat() tells whether that was the reason
@@ -93,7 +100,7 @@ StatSrc ==
 InitCoder ==
     /\ pc = "init"
     /\ UNCHANGED <<cfg, srcThere, dst, sys>>
-    /\ IF cfg.payloadOK \/ (cfg.force /\ cfg.stdout)
+    /\ IF cfg.payloadOK \/ (cfg.force /\ cfg.optStdout)      \* opt_stdout itself, not "writes to stdout because it reads stdin"
        THEN UNCHANGED msgs /\ pc' = "name_dst"
        ELSE Err("format") /\ pc' = "done"
 
@@ -124,11 +131,30 @@ CreateDst ==
        ELSE /\ UNCHANGED msgs /\ pc' = "code"
             /\ dst' = [there |-> TRUE, fresh |-> TRUE, kind |-> "reg", mode |-> 384, uid |-> "me", gid |-> "me", times |-> "now"]
 
-(* coder_normal()/coder_passthru(): the payload is valid, coding succeeds    *)
+(* holes are made only when decompressing into a file created by xz, unless --no-sparse (io_open_dest_real) *)
+SparseOn(c) == c.opmode = "decompress" /\ ~c.stdout /\ ~c.nosparse
+(* cfg.tail: how the output data ends - "data", "hole" (data followed by all-zero 8 KiB blocks up to the end),
+   "allhole" (nothing but such blocks); with SparseOn a hole is still pending when coding is over *)
+PendingHole(c) == SparseOn(c) /\ c.tail \in {"hole", "allhole"}
+
+(* coder_normal()/coder_passthru(): the payload is valid, coding succeeds; the io_write() calls on the target
+   are one "data_dst" entry (none at all if everything went into the pending hole) *)
 Code ==
     /\ pc = "code"
-    /\ UNCHANGED <<cfg, srcThere, dst, sys, msgs>>
-    /\ pc' = IF cfg.stdout THEN "close" ELSE "chown_owner"
+    /\ UNCHANGED <<cfg, srcThere, msgs>>
+    /\ IF cfg.stdout THEN UNCHANGED <<sys, dst>> /\ pc' = "close"
+       ELSE /\ IF SparseOn(cfg) /\ cfg.tail = "allhole" THEN UNCHANGED sys ELSE Log([call |-> "data_dst"])
+            /\ dst' = [dst EXCEPT !.times = "now"]
+            /\ pc' = IF PendingHole(cfg) THEN "finish_sparse" ELSE "chown_owner"
+
+(* io_close(): lseek(dest_fd, pending - 1, SEEK_CUR) and one zero byte - before the attributes are copied, *)
+(* because writing sets the modification time                                                              *)
+FinishSparse ==
+    /\ pc = "finish_sparse"
+    /\ Log([call |-> "finish_sparse"])
+    /\ dst' = [dst EXCEPT !.times = "now"]
+    /\ UNCHANGED <<cfg, srcThere, msgs>>
+    /\ pc' = "chown_owner"
 
 (* fchown(dest_fd, src_st.st_uid, -1); failure warns only for root           *)
 ChownOwner ==
@@ -176,7 +202,7 @@ CloseAndUnlink ==
             /\ srcThere' = FALSE
     /\ pc' = "done"
 
-ANext == OpenSrc \/ StatSrc \/ InitCoder \/ NameDst \/ UnlinkDst \/ CreateDst \/ Code
+ANext == OpenStdin \/ OpenSrc \/ StatSrc \/ InitCoder \/ NameDst \/ UnlinkDst \/ CreateDst \/ Code \/ FinishSparse
             \/ ChownOwner \/ ChownGroup \/ Chmod \/ Utimens \/ CloseAndUnlink
 
 Sevs == [i \in 1..Len(msgs) |-> msgs[i].sev]
